@@ -1,10 +1,52 @@
 (* C07  A syntax error stays contained in its own entry.
-   Proved (for every token list): the recovery step used after every syntax error stops right
-   after the first Newline token and only ever drops a prefix.  The containment statement itself
-   (other entries unchanged up to a line shift, errors only on the damaged lines) is decided per
-   run on (J, damaged J) pairs against the real parser; see the level note. *)
-From HL Require Import Lib.Bytes Model.Lexer Model.Parser Proofs.C07Proofs Proofs.LexerProofs.
+   Proved for EVERY token list (what precedes may be intact, damaged or unreadable): one turn of the
+   journal loop never consumes past an entry boundary (a line break followed by a token that is
+   neither an indent nor another line break), and the loop gets to stand exactly on the first token
+   after every boundary -- so the parse of the following entries is the loop started there.  That the
+   following entries then come out the same (up to the line shift) and that no error lands outside
+   the damaged lines is decided per run on (J, damaged J) pairs against the real parser. *)
+From HL Require Import Lib.Bytes Model.Ast Model.Lexer Model.Parser Proofs.C07Proofs Proofs.LexerProofs Proofs.ParserProofs
+  Proofs.ParserContainment.
 
+(* containment of consumption, one turn: K = every line break consumed, except possibly as the last
+   token, is followed by an indent or another line break *)
+Theorem C07_one_turn_stays_in_its_entry : forall fuel ps j, wf ps -> (len ps <= fuel)%nat -> is_ty (ctype ps) TEOF = false ->
+  exists ps1 j1, parse_journal (S fuel) ps j = parse_journal fuel ps1 j1 /\ kk ps1 ps /\ wf ps1 /\ (len ps1 < len ps)%nat.
+Proof. exact journal_step_kk. Qed.
+Print Assumptions C07_one_turn_stays_in_its_entry.
+
+Theorem C07_never_past_a_boundary : forall ps' ps pre nl t rest,
+  kk ps' ps -> toks ps = pre ++ nl :: t :: rest -> isNL nl = true -> cont_tok t = false ->
+  exists pre', toks ps' = pre' ++ t :: rest.
+Proof. exact kk_stops_at_boundary. Qed.
+Print Assumptions C07_never_past_a_boundary.
+
+(* resynchronisation: whatever lies before a boundary, the loop continues from exactly the first
+   token after it *)
+Theorem C07_resynchronises_at_every_boundary : forall n fuel ps j pre nl t rest,
+  (len ps <= n)%nat -> wf ps -> (len ps <= fuel)%nat ->
+  toks ps = pre ++ nl :: t :: rest -> isNL nl = true -> cont_tok t = false -> noEOF (pre ++ [nl]) = true ->
+  exists fuel' ps' j', parse_journal (S fuel) ps j = parse_journal (S fuel') ps' j' /\
+                       toks ps' = t :: rest /\ wf ps' /\ (len ps' <= fuel')%nat.
+Proof. exact journal_reaches_boundary. Qed.
+Print Assumptions C07_resynchronises_at_every_boundary.
+
+(* non-vacuity: a damaged transaction followed by an intact one *)
+Definition c07_sample : list N :=
+  bytes_of_string "2024-01-01 a" ++ [10%N] ++ bytes_of_string "    x:y  1 @@ ==" ++ [10%N] ++
+  bytes_of_string "2024-01-02 b" ++ [10%N] ++ bytes_of_string "    x:y  1" ++ [10%N].
+Theorem C07_sample :
+  match lex c07_sample with
+  | Some ts => match parse_journal (length ts + 2) (mkPS ts [] 0%Z) (mkJournal [] [] [] []) with
+               | Some (j, ps) => length (j_txs j) = 2%nat /\ perrs ps <> []
+               | None => False
+               end
+  | None => False
+  end.
+Proof. vm_compute. split; [reflexivity|discriminate]. Qed.
+Print Assumptions C07_sample.
+
+(* the recovery step itself, for every token list *)
 Theorem C07_recovery_resynchronises : forall pre t rest,
   forallb (fun x => negb (is_nl x) && negb (is_eof x)) pre = true -> is_nl t = true -> rest <> [] ->
   skip_line_toks (pre ++ t :: rest) = rest.
